@@ -11,3 +11,7 @@ package cast
 
 //@ assumed func ByteArrayToString(buf []byte) string
 //@   ensures len(r0) == len(buf) && forall(i, 0, len(buf), r0[i] == buf[i])
+
+//@ func Ptr(v T) *T
+//@   props C04
+//@   ensures r0 != nil && fresh(r0) && *r0 == v
